@@ -92,9 +92,7 @@ impl Display for InsertError {
                     .iter()
                     .map(|conflict| format!("        - {conflict}"))
                     .collect::<Vec<_>>()
-                    .join("\n")
-                    .trim_end()
-                    .to_owned();
+                    .join("\n");
 
                 write!(
                     f,
